@@ -336,7 +336,10 @@ func c04RefOne(k c04Cfg, path, form string, t c04Tok, v c04Verifier) c04One {
 	}
 	// 5. standard e-mail claim not marked unverified, unless the operator allowed that
 	switch t.EV {
-	case "false":
+	case "false", "str-false":
+		// (the string "false" — the form some providers emit — marks the e-mail unverified just as the
+		// JSON boolean does: a reader that understands "true" given as a string cannot take "false" for
+		// "nothing said")
 		switch {
 		case k.AllowU && v.provider:
 		case k.AllowU:
@@ -346,8 +349,6 @@ func c04RefOne(k c04Cfg, path, form string, t c04Tok, v c04Verifier) c04One {
 		default:
 			fail("email_verified")
 		}
-	case "str-false":
-		open("email_verified is the string \"false\"")
 	}
 	// converse only: shapes the documentation does not define
 	switch t.Typ {
@@ -938,6 +939,21 @@ type c04Unit struct {
 	Iss    string
 }
 
+// c04EVsOf: the quick tier leaves the string form of email_verified out of the product, except on
+// tokens that are flawless otherwise (genuine signer and issuer, plain claim typing, not expired) —
+// the only place where it decides anything.
+func c04EVsOf(evs []string, u c04Unit, exp string) []string {
+	for _, ev := range evs {
+		if ev == "str-false" {
+			return evs
+		}
+	}
+	if u.Signer == "main" && u.Iss == "ok" && u.Typ == "normal" && exp == "valid" {
+		return append(append([]string{}, evs...), "str-false")
+	}
+	return evs
+}
+
 func c04TierAlphabet(quick bool) (exps, evs []string) {
 	if quick {
 		return c04ExpsQuick, c04EVsQuick
@@ -1083,7 +1099,7 @@ func c04Run(c *Ctx) {
 		for _, u := range units {
 			for _, aud := range c04UnitAuds(u) {
 				for _, exp := range exps {
-					for _, ev := range evs {
+					for _, ev := range c04EVsOf(evs, u, exp) {
 						v := c04Ref(u.Cfg, u.Path, u.Form, c04Tok{Signer: u.Signer, Iss: u.Iss, Aud: aud, Exp: exp, EV: ev, Typ: u.Typ})
 						census[u.Path+":cases"]++
 						switch {
@@ -1135,7 +1151,7 @@ func c04Run(c *Ctx) {
 		}
 		for _, aud := range c04UnitAuds(u) {
 			for _, exp := range exps {
-				for _, ev := range evs {
+				for _, ev := range c04EVsOf(evs, u, exp) {
 					cs := &c04Case{Cfg: u.Cfg, Path: u.Path, Form: u.Form, Tok: c04Tok{Signer: u.Signer, Iss: u.Iss, Aud: aud, Exp: exp, EV: ev, Typ: u.Typ}}
 					v := c04Ref(cs.Cfg, cs.Path, cs.Form, cs.Tok)
 					cs.Expected = v.String()
@@ -1273,7 +1289,7 @@ func init() {
 		level: "exploration",
 		rule:  "full product token{signer x issuer x audience shape x expiry x email_verified x claim typing} x configuration{key source x allow-unverified-email x skip-issuer-verification x audience configuration x claim names} x entry path{login callback, token refresh, bearer header via provider loader (3 header forms), bearer header with an extra issuer} through the real proxy and the fake identity provider; each flow is compared clause by clause with a reference model of the statement: accepted only if every clause holds, identity at the upstream and in /oauth2/userinfo equal to the token's configured claims, profile endpoint only for claims the token lacks; non-trivial = token that satisfies every clause or fails exactly one",
 		assumptions: []string{
-			"open details are counted as ambiguous and cannot fail: token without exp; kid that names no published key; email_verified given as the string \"false\"; email_verified=false with a non-standard e-mail claim or on an extra issuer with allow-unverified-email; issuer absent while issuer verification is skipped; groups claim that is not a list of strings; bearer token without e-mail claim; token carried in a Basic header; with an extra issuer configured, a token whose audience is the other issuer's audience",
+			"open details are counted as ambiguous and cannot fail: token without exp; kid that names no published key; email_verified=false with a non-standard e-mail claim or on an extra issuer with allow-unverified-email; issuer absent while issuer verification is skipped; groups claim that is not a list of strings; bearer token without e-mail claim; token carried in a Basic header; with an extra issuer configured, a token whose audience is the other issuer's audience",
 			"the claim that is not the configured audience claim always carries the opposite verdict (decoy)",
 			"refresh path: the provider does not rotate refresh tokens so that one saved post-login browser state can be refreshed with every token of the alphabet; 'accepted' there means the served identity changed away from the pre-refresh one",
 			"ID-token expiry is decided inside go-oidc on the real clock: probed with margins of hours (valid = +1000 h, expired = -2 h), not at the boundary",
